@@ -3573,6 +3573,14 @@ class StateEngine(object):
             if retry_timeout:
                 context_state["RetryTimeout"] = retry_timeout
 
+            """
+            For the same reason the event must carry the original input of the
+            Map or Parallel state, not the output of the branch that finished
+            last: a Retry re-runs the state on it and a Catch places the Error
+            Output into it.
+            """
+            event["data"] = data
+
             try:
                 result = evaluate_payload_template(
                     result, context, state.get("ResultSelector")
